@@ -111,6 +111,14 @@ func loadWorld(repo string) (*World, error) {
 				if pkgs, err = loadOnce(nil); err != nil {
 					return nil, err
 				}
+				// second attempt: only the de-anchored helpers of the reference tree (the rules rely on those being expanded)
+				if !inlineMinimal {
+					inlineMinimal = true
+					overlayAll = map[string][]byte{}
+					round = -1
+					loadNotes = append(loadNotes, "retrying with the de-anchored helpers only")
+					continue
+				}
 			}
 			break
 		}
